@@ -799,6 +799,12 @@ func (r *rig) msgKey(rnd *rand.Rand, c *Case, code uint64) []byte {
 			fk.Key = rbytes(rnd, 32)
 		case "long":
 			fk.Key = rbytes(rnd, 5000)
+		case "zeroscalar":
+			fk.Key = make([]byte, 32)
+		case "order":
+			fk.Key = crypto.S256().Params().N.Bytes()
+		case "allones":
+			fk.Key = bytes.Repeat([]byte{0xff}, 32)
 		}
 		fk.Signature = sigOf(rnd, sigClass, crypto.SignatureHash(fk), k)
 		data, _ := fk.ToBytes()
